@@ -12,13 +12,16 @@ pub struct PanicRec {
 }
 
 impl PanicRec {
-    /// True when the panic location lies in the subject crate (`/repo/src`).
+    /// True when the panic location lies in the subject crate (`/repo/src`, or the scratch copy
+    /// named by VERIF_SUBJECT_DIR during development runs).
     pub fn in_subject(&self) -> bool {
-        self.file.starts_with("/repo/") || self.file.starts_with("src/") || self.file.contains("/repo/src/")
+        let dir = subject_dir();
+        self.file.starts_with(&dir) || self.file.starts_with("src/")
     }
     /// Location + message prefix without the line number (stable across unrelated edits).
     pub fn class(&self) -> String {
-        let f = self.file.rsplit("/repo/").next().unwrap_or(&self.file);
+        let dir = subject_dir();
+        let f = self.file.strip_prefix(dir.as_str()).unwrap_or_else(|| self.file.rsplit("/repo/").next().unwrap_or(&self.file));
         let mut m: String = self.msg.chars().filter(|c| !c.is_ascii_digit()).take(60).collect();
         m = m.replace('\n', " ");
         format!("panic@{}:{}", f, m.trim())
@@ -26,6 +29,15 @@ impl PanicRec {
     pub fn describe(&self) -> String {
         format!("{}:{}: {}", self.file, self.line, self.msg.chars().take(200).collect::<String>())
     }
+}
+
+/// Directory of the subject's sources, with a trailing slash.
+pub fn subject_dir() -> String {
+    let mut d = std::env::var("VERIF_SUBJECT_DIR").unwrap_or_else(|_| "/repo".to_string());
+    if !d.ends_with('/') {
+        d.push('/');
+    }
+    d
 }
 
 thread_local! {
